@@ -63,7 +63,7 @@ pub fn write(a: &SupArgs, prop: &'static dyn Prop, m: &Merged, total: u64, wall:
     j.put("assumptions", J::Arr(assume.iter().map(|s| J::s(s)).collect()));
     j.put("wall_s", J::F((wall * 1000.0).round() / 1000.0));
     j.put("violations", J::U(unknown_groups as u64));
-    let dir = format!("{}/evidence", a.verif_dir);
+    let dir = format!("{}/evidence", a.out_dir);
     let _ = std::fs::create_dir_all(&dir);
     let path = format!("{}/{}.json", dir, prop.id());
     if let Err(e) = std::fs::write(&path, j.pretty()) {
